@@ -113,6 +113,13 @@ func (r *DocumentHandler) ProcessOperation(operationBuffer []byte) (*document.Re
 
 	ti := docutil.GetTransformationInfoForUnpublished(r.namespace, "", "", op.UniqueSuffix, requestJCS)
 
+	// the long-form DID that is handed out has to resolve: a request with members that are not part of a create
+	// request does not survive the round trip through its initial state
+	_, _, err = pv.OperationParser().ParseDID(r.namespace, fmt.Sprint(ti[document.IDProperty]))
+	if err != nil {
+		return nil, fmt.Errorf("%s: %s", badRequest, err.Error())
+	}
+
 	return r.getCreateResponse(op, ti, pv)
 }
 
